@@ -7,9 +7,12 @@ import (
 	"encoding/json"
 	"fmt"
 	"io"
+	"os"
+	"os/exec"
 	"regexp"
 	"runtime/debug"
 	"strings"
+	"syscall"
 	"testing"
 	"time"
 
@@ -118,7 +121,7 @@ func compile(src []byte, o optSet, mods map[string]string, st *ugo.SymbolTable) 
 	select {
 	case r := <-ch:
 		return r
-	case <-time.After(20 * time.Second):
+	case <-time.After(hangWatchdog):
 		return result{hang: true}
 	}
 }
@@ -162,7 +165,9 @@ func judge(rec *ev.Rec, src []byte, o optSet, mods map[string]string, st *ugo.Sy
 	_ = mk
 	switch {
 	case r.hang:
-		rec.Inconcl("compile-watchdog-20s")
+		// Compile did not return. The goroutine cannot be stopped and may allocate without bound, so this
+		// process is replaced (exec) by a coordinator that re-runs the input alone in a killable child.
+		handOverHang(rec, src, o, mods, kind)
 		return "", "", false
 	case r.pan != "":
 		return panicSig(r.pan, r.stack), fmt.Sprintf("Compile panicked (%s): %s\n%s", o, r.pan, firstLines(r.stack, 24)), true
@@ -183,6 +188,137 @@ func judge(rec *ev.Rec, src []byte, o optSet, mods map[string]string, st *ugo.Sy
 		return "invalid-bytecode:" + strings.SplitN(regexp.MustCompile(`[0-9]+`).ReplaceAllString(p, "N"), ":", 3)[1], "Compile succeeded but the bytecode is malformed: " + p, true
 	}
 	return "", "", true
+}
+
+const hangWatchdog = 8 * time.Second
+
+type hangSuspect struct {
+	Case    caseT  `json:"case"`
+	PrevOut string `json:"prev_out"`
+}
+
+// handOverHang never returns on success: it stores the suspect input and the partial results and
+// replaces the process image by the coordinator (same test binary, C05_HANG_COORD=1).
+func handOverHang(rec *ev.Rec, src []byte, o optSet, mods map[string]string, kind string) {
+	out := os.Getenv("VERIF_OUT")
+	if out == "" || os.Getenv("C05_NO_HANDOVER") != "" {
+		rec.Inconcl("compile-watchdog(no hand-over possible)")
+		return
+	}
+	rec.Flush(false)
+	sus := hangSuspect{Case: mkCase(src, o, mods, kind), PrevOut: out + ".partial"}
+	_ = os.Rename(out, sus.PrevOut)
+	data, _ := json.Marshal(sus)
+	susFile := out + ".suspect"
+	if err := os.WriteFile(susFile, data, 0o644); err != nil {
+		rec.Inconcl("compile-watchdog(cannot write suspect file)")
+		return
+	}
+	env := append(os.Environ(), "C05_HANG_COORD="+susFile)
+	_ = syscall.Exec(os.Args[0], os.Args, env)
+	rec.Inconcl("compile-watchdog(exec failed)")
+}
+
+// coordinator: re-run the suspect input alone in a child process that can be killed.
+func coordinator(t *testing.T, rec *ev.Rec, susFile string) {
+	data, err := os.ReadFile(susFile)
+	if err != nil {
+		t.Fatalf("INFRA: %v", err)
+	}
+	var sus hangSuspect
+	if err := json.Unmarshal(data, &sus); err != nil {
+		t.Fatalf("INFRA: %v", err)
+	}
+	_ = rec.Absorb(sus.PrevOut) // partial results of the interrupted run (not complete by construction)
+	_ = os.Remove(sus.PrevOut)
+	_ = os.Remove(susFile)
+	confirmed, detail := probeHang(sus.Case)
+	if confirmed {
+		what := fmt.Sprintf("Compile does not terminate (%s): still running after %s when run alone in a fresh process (%s)\n--- input ---\n%s", sus.Case.Opt, probeBudget, detail, sus.Case.Src)
+		rec.Case()
+		if !rec.Violation("compile-hang:"+hangClass(sus.Case), what, sus.Case) {
+			t.Errorf("%s", what)
+		}
+		return
+	}
+	rec.Inconcl("compile-slow-but-terminating(" + detail + ")")
+	t.Errorf("INFRA: the run was interrupted by a compile watchdog expiry that did not reproduce (%s)", detail)
+}
+
+const probeBudget = 40 * time.Second
+
+func hangClass(c caseT) string {
+	// the first token of the input is a stable enough hint of the construct
+	f := strings.Fields(c.Src)
+	if len(f) == 0 {
+		return "?"
+	}
+	w := regexp.MustCompile(`[^a-z(){}\[\]]`).ReplaceAllString(strings.ToLower(f[0]), "")
+	if len(w) > 12 {
+		w = w[:12]
+	}
+	return w
+}
+
+// probeHang runs the case in a child process (C05_HANG_PROBE) with an address-space limit.
+func probeHang(c caseT) (bool, string) {
+	f, err := os.CreateTemp("", "c05probe")
+	if err != nil {
+		return false, "cannot create temp file"
+	}
+	data, _ := json.Marshal(c)
+	_, _ = f.Write(data)
+	_ = f.Close()
+	defer os.Remove(f.Name())
+	cmd := exec.Command(os.Args[0], "-test.run", "^TestHangProbe$", "-test.timeout", "0")
+	cmd.Env = append(os.Environ(), "C05_HANG_PROBE="+f.Name(), "C05_HANG_COORD=")
+	var outb strings.Builder
+	cmd.Stdout, cmd.Stderr = &outb, &outb
+	if err := cmd.Start(); err != nil {
+		return false, "cannot start probe: " + err.Error()
+	}
+	done := make(chan error, 1)
+	go func() { done <- cmd.Wait() }()
+	select {
+	case err := <-done:
+		if err == nil {
+			return false, "returned when run alone"
+		}
+		if strings.Contains(outb.String(), "out of memory") || strings.Contains(outb.String(), "cannot allocate") {
+			return true, "allocated without bound until the 4 GiB address-space limit"
+		}
+		return false, "probe failed: " + firstLines(outb.String(), 3)
+	case <-time.After(probeBudget):
+		_ = cmd.Process.Kill()
+		<-done
+		return true, "killed after the budget"
+	}
+}
+
+// TestHangProbe is the child of probeHang: compiles one input and exits.
+func TestHangProbe(t *testing.T) {
+	file := os.Getenv("C05_HANG_PROBE")
+	if file == "" {
+		t.Skip("helper of TestCheck")
+	}
+	_ = syscall.Setrlimit(syscall.RLIMIT_AS, &syscall.Rlimit{Cur: 4 << 30, Max: 4 << 30})
+	data, err := os.ReadFile(file)
+	if err != nil {
+		t.Fatal(err)
+	}
+	var c caseT
+	if err := json.Unmarshal(data, &c); err != nil {
+		t.Fatal(err)
+	}
+	src, _ := base64.StdEncoding.DecodeString(c.SrcB64)
+	opts := ugo.CompilerOptions{NoOptimize: c.Opt.NoOptimize, OptimizerLimit: c.Opt.Limit}
+	if c.Opt.Modules {
+		opts.ModuleMap = moduleMap(c.Modules)
+	}
+	func() {
+		defer func() { _ = recover() }()
+		_, _ = ugo.Compile(src, opts)
+	}()
 }
 
 func firstLines(s string, n int) string {
@@ -231,11 +367,15 @@ func TestCheck(t *testing.T) {
 	rec := ev.New("C05")
 	rec.Rule = "inputs: (a) rendered generator programs and token-level mutations of them (delete, duplicate, swap, replace by another token class, truncate mid-token, insert NUL/BOM/invalid UTF-8/unterminated literals), (b) arbitrary bytes, (c) boundary enumeration of every operand-width limit (254..257 locals/params/args/captures, 32767/32768 map elements, 65535/65536 array elements and constants, with and without a module), x CompilerOptions (optimizer off/default/budget 1-5, trace flags, module map incl. cyclic/missing/invalid importables, re-used symbol table, Eval path). Oracle: no panic, returns within the watchdog, and successful Bytecode passes an independent structural validator. Non-trivial = the input got past the parser (reached optimizer/compiler); distinct by (input, options)"
 	rec.Assumptions = []string{
-		"a watchdog expiry (20 s) is inconclusive, not a violation",
+		"a Compile call that does not return within 8 s is re-run alone in a fresh killable child process with a 40 s budget and a 4 GiB address-space limit: still running / unbounded allocation = violation (does not terminate), otherwise inconclusive",
 		"the structural validator checks what the property lists: jump/constant/local/builtin/module indexes in range, instruction boundaries, RETURN last",
 	}
 	defer func() { rec.Flush(!t.Failed() || rec.HasUnknown()) }()
 
+	if sus := os.Getenv("C05_HANG_COORD"); sus != "" {
+		coordinator(t, rec, sus)
+		return
+	}
 	runReplays(t, rec)
 	if ev.ReplayOnly() {
 		return
